@@ -344,6 +344,15 @@ static void case_cpca(vh_ctx *c)
       double ve = m->total_expvar->data[k];
       if (ve != ve) { vh_fail(c, k < rz ? "CPCA|total-expvar-NaN-defined-component" : "CPCA|total-expvar-NaN-beyond-rank", "total_expvar[%zu] is NaN (rank of the concatenation %zu, constant block %d)", k, rz, anyconst); break; }
     }
+    /* every component up to the numerical rank exists: it has an explained-variance entry and a super score that is not null
+       (second build session; the exhaustion test of the library is exact, so a component above 1e-9 of the data scale is never dropped) */
+    {
+      size_t want = npc < rz ? npc : rz, have = 0;
+      if (want > minw) want = minw;          /* CPCA extracts at most as many components as its narrowest block has variables */
+      for (k = 0; k < m->super_scores->col && k < m->total_expvar->size; k++) { ld tt = 0; for (i = 0; i < n; i++) tt += (ld)m->super_scores->data[i][k] * m->super_scores->data[i][k]; if (tt > 0) have++; else break; }
+      vh_obs("cpca_defined_components_expected", (double)want); vh_obs("cpca_defined_components_found", (double)(have < want ? have : want));
+      if (have < want) vh_fail(c, anyconst ? "CPCA|defined-component-missing|constant-block" : "CPCA|defined-component-missing", "%zu components requested, numerical rank of the scaled concatenation %zu, but only %zu non-null components returned (total_expvar has %zu entries)", npc, rz, have, m->total_expvar->size);
+    }
     for (k = 0; k < rz && k < m->super_scores->col && k < m->total_expvar->size; k++) {
       int fin = 1; ld tt = 0;
       for (i = 0; i < n; i++) { if (!isfinite(m->super_scores->data[i][k])) fin = 0; tt += (ld)m->super_scores->data[i][k] * m->super_scores->data[i][k]; }
